@@ -81,6 +81,75 @@ type MScope struct {
 type Model struct {
 	Scopes []*MScope
 	Fns    map[int]*MFn // accepted constructors and decorators by fn id
+	// Unspec[scope][key]: whether `key` is provided in `scope` is not
+	// specified: a constructor there lists its own result type in dig.As
+	// together with other interfaces ("only the listed interfaces" and "not
+	// under its own type" pull in opposite directions; dig drops the own type)
+	Unspec map[int]map[MKey]bool
+}
+
+// ownInAs lists the keys (own result type, name) of results whose As list
+// contains the result's own type together with at least one other interface.
+func ownInAs(f *Fn, o *Opts) []MKey {
+	if o == nil || len(o.As) < 2 {
+		return nil
+	}
+	var out []MKey
+	var walk func(r Result, top bool)
+	walk = func(r Result, top bool) {
+		if r.isObj() {
+			for _, q := range r.Obj {
+				walk(q, false)
+			}
+			return
+		}
+		if r.Group != "" || (top && o.Group != "") {
+			return
+		}
+		own, other := false, false
+		for _, a := range o.As {
+			if a == r.T {
+				own = true
+			} else {
+				other = true
+			}
+		}
+		if own && other {
+			name := r.Name
+			if top {
+				name = o.Name
+			}
+			out = append(out, MKey{T: r.T, Name: name})
+		}
+	}
+	for _, r := range f.R {
+		walk(r, true)
+	}
+	return out
+}
+
+// MarkUnspec records the own-type keys of an accepted constructor.
+func (m *Model) MarkUnspec(f *MFn) {
+	for _, k := range ownInAs(f.F, f.O) {
+		if m.Unspec == nil {
+			m.Unspec = map[int]map[MKey]bool{}
+		}
+		if m.Unspec[f.Home] == nil {
+			m.Unspec[f.Home] = map[MKey]bool{}
+		}
+		m.Unspec[f.Home][k] = true
+	}
+}
+
+// UnspecVisible: is key k in the unspecified state in some scope on the path
+// from view to the root?
+func (m *Model) UnspecVisible(view int, k MKey) bool {
+	for _, a := range m.Anc(view) {
+		if m.Unspec[a][k] {
+			return true
+		}
+	}
+	return false
 }
 
 func NewModel() *Model {
@@ -825,6 +894,7 @@ func (m *Model) MustRunP(f *MFn, prune func(*MFn) bool) map[int]bool {
 type Zones struct {
 	DecoNoProvider bool // a key in the closure is decorated but has no visible constructor
 	DecoCycle      bool // KF-DECO-CYCLE pattern reachable
+	AsOwn          bool // a leaf's key is one that a constructor lists as its own type in dig.As next to other interfaces
 	OptDecoUnavail bool // optional leaf whose decorator has unavailable dependencies (C04 carve-out)
 	SoftDecorated  bool // soft group that is decorated (C11 carve-out)
 	CtorCycle      bool // run-time constructor cycle reachable
@@ -832,7 +902,7 @@ type Zones struct {
 }
 
 func (z Zones) Any() bool {
-	return z.DecoNoProvider || z.DecoCycle || z.OptDecoUnavail || z.SoftDecorated || z.CtorCycle || z.GraphCyclic
+	return z.DecoNoProvider || z.DecoCycle || z.OptDecoUnavail || z.SoftDecorated || z.CtorCycle || z.GraphCyclic || z.AsOwn
 }
 
 // ZonesOf explores the closure of f.
@@ -850,6 +920,9 @@ func (m *Model) ZonesOf(f *MFn) Zones {
 		seen[g] = true
 		for _, l := range g.Leaves {
 			self := selfFor(g, l.Key)
+			if !l.IsGroup && m.UnspecVisible(g.View, l.Key) {
+				z.AsOwn = true
+			}
 			if l.IsGroup {
 				ds := m.DecosOnPath(g.View, l.Key, self)
 				if l.Soft && len(ds) > 0 {
